@@ -391,6 +391,36 @@ fn run_op_inner(st: &mut State, op: &Op) -> Obs {
             let hr = pathrs::HandleRef::from_fd(h.as_fd());
             match hr.reopen(flags) { Ok(f) => ok_fd(st, op, f.into()), Err(e) => err_obs(e) }
         }
+        (_, "reopen_unshared") => {
+            // The caller is a thread with its OWN descriptor table (unshare(CLONE_FILES)): the handle sits at number `num` in
+            // the thread's table, while the thread-group leader has an unrelated decoy at the same number.
+            let real = match op.handle.as_ref().and_then(|k| st.handles.get(k)) { Some(h) => h.as_raw_fd(), None => return harness_err("no such handle".into()) };
+            let n = op.num.unwrap_or(50) as c_int;
+            let dec = cstr(op.path2.as_deref().unwrap_or("/"));
+            let dfd = unsafe { libc::open(dec.as_ptr(), libc::O_RDONLY | libc::O_CLOEXEC) };
+            if dfd < 0 { return harness_err("cannot open decoy".into()); }
+            if unsafe { libc::dup3(dfd, n, libc::O_CLOEXEC) } < 0 { return harness_err("dup3 decoy".into()); }
+            unsafe { libc::close(dfd) };
+            let fl = op.flags.unwrap_or(0) as c_int;
+            let r = std::thread::spawn(move || -> Obs {
+                if unsafe { libc::unshare(libc::CLONE_FILES) } != 0 { return harness_err("unshare(CLONE_FILES) failed".into()); }
+                if unsafe { libc::dup3(real, n, libc::O_CLOEXEC) } < 0 { return harness_err("dup3 in thread".into()); }
+                let out = if capi {
+                    let ret = unsafe { pathrs_reopen(n, fl) };
+                    if ret >= 0 { let i = fd_info(ret); unsafe { libc::close(ret) }; Obs { ok: true, fd: Some(i), ret: Some(ret as i64), ..Default::default() } }
+                    else { let p = unsafe { pathrs_errorinfo(ret) }; let e = if p.is_null() { 0 } else { let e = unsafe { (*p).saved_errno }; unsafe { pathrs_errorinfo_free(p) }; e }; Obs { ok: false, errno: Some(e as i32), kind: Some("CError".into()), ret: Some(ret as i64), ..Default::default() } }
+                } else {
+                    let b = unsafe { std::os::unix::io::BorrowedFd::borrow_raw(n) };
+                    match pathrs::HandleRef::from_fd(b).reopen(OpenFlags::from_bits_retain(fl)) {
+                        Ok(f) => { let i = fd_info(f.as_raw_fd()); Obs { ok: true, fd: Some(i), ..Default::default() } }
+                        Err(e) => err_obs(e),
+                    }
+                };
+                out
+            }).join();
+            unsafe { libc::close(n) };
+            match r { Ok(o) => o, Err(_) => Obs { ok: false, panic: Some("thread panicked".into()), ..Default::default() } }
+        }
         (false, "handle_try_clone") => {
             let h = match op.handle.as_ref().and_then(|k| st.handles.get(k)) { Some(h) => h, None => return harness_err("no such handle".into()) };
             match pathrs::HandleRef::from_fd(h.as_fd()).try_clone() { Ok(h2) => ok_fd(st, op, h2.into()), Err(e) => err_obs(e) }
